@@ -28,6 +28,15 @@ CHECKS = {
  "C13": ("model_checking", "complete exploration of the C01 lattice x output formats x lint-file subsets/spellings, cross-format differential oracle",
          "for every C01 state the five lint invocations are parsed and must agree per category and with the exit status and JSON summary; for defect sets up to the lint-file bound all 32 subsets of a 5-path menu x 4 spellings go through lint-file and must equal lint's per-file problems",
          "C locale messages; names with spaces/non-ASCII but no newline", "4/C13"),
+ "C18": ("model_checking", "complete enumeration of trees x option combinations and of an expression family; truth-table equivalence for LicenseConcluded",
+         "every C01 base x defect sets (<=1 quick, <=2 thorough) x 5 option combinations of `reuse spdx`, all licence-expression trees with <= 2 operators over 3 atoms (alone and paired) and checksum chunk-boundary sizes; each document parsed by a strict tag-value reader and compared with lint --json, hashlib.sha1 and every truth assignment of the atoms",
+         "'X WITH Y' and 'X+' are atoms; LicenseRef texts without '</text>'", "4/C18"),
+ "C10": ("model_checking", "complete product enumeration + all 2-step command histories; byte-equality oracle",
+         "every entry of the extension/file-name tables x line mode x 5 bodies, every --style x mode x prefix x year x template x target, hostile value tails built from each style's own marker, every ordered pair of an 8-command menu on 4 file types and 4-fold repetition: the scratch tree after the second identical run must be byte-identical",
+         "bodies free of other REUSE tags; fixed --year", "4/C10"),
+ "C07": ("model_checking", "complete sub-product enumeration (file types, styles x options, templates x targets, hostile tokens, multi-file invocations) with read-back through lint",
+         "S1 every file type x mode x value set x prior content, S2 every style x mode x prefix x year x holder, S3 templates x target variants, S4 every comment token of any style in holder/contributor x style x mode, S5 every ordered selection of 4 files with different prior information (one shadowed by a .license) with and without -r: success => lint reads back exactly prior U requested; failure => tree unchanged",
+         "holder grammar of 4 + token-built values; default year accepted as the year before/after the call", "4/C07"),
 }
 PENDING_REASON = "check not built yet in this session (design in DESIGN.md section 4); not claimed until its machinery exists"
 
